@@ -608,17 +608,20 @@ class SFTPFile(BufferedFile):
         data = None
         if t == CMD_STATUS:
             # save exception and re-raise it on next file operation
+            # is this the status of a pipelined write, or of a prefetch read?
+            is_write = num in self._reqs
             try:
                 self.sftp._convert_status(msg)
-            except EOFError:
+            except EOFError as e:
                 # a prefetch request at or past the end of the file: no
                 # data there, which is not an error; a read that gets to
-                # that position asks the server itself
-                pass
+                # that position asks the server itself.  A write answered
+                # that way was refused like with any other error code.
+                if is_write:
+                    self._saved_exception = e
             except Exception as e:
                 self._saved_exception = e
-            if num in self._reqs:
-                # the status of a pipelined write, not of a prefetch read
+            if is_write:
                 return
             # a prefetch read that got no data: the request is answered
             # all the same, so stop waiting for it below
